@@ -247,6 +247,55 @@ def run_case(case):
     return {"v": v, "nt": nt, "out": interesting, "dg": (sorted(obs["status"].items()), sorted(obs["steps"].items()))}
 
 
+# ---------------------------------------------------------------- a container is skipped when partly executed
+def partskip_case(case):
+    """case = (prog, k, kind): the k-th hook invocation calls feature.skip() ("skipf") or rule.skip() ("skipr") -
+    documented as legal on an entity that 'may be already partly executed'; children that already ran keep their
+    result, the rest becomes skipped. Oracle: no prediction - every element's status must be the documented function
+    of the statuses of what it contains (as observed after the run)."""
+    prog, k, kind = case
+    obs = harness.run_case(prog, {}, faults={k: kind}, hooks=True)
+    v = []
+    if obs["escaped"]:
+        v.append(({"subcheck": "run", "clause": "exception-escapes-run", "exc": obs["escaped"]},
+                  "run() raised %s: %s" % (obs["escaped"], obs.get("escaped_msg"))))
+        return {"v": v, "nt": None, "out": "escaped", "dg": obs["escaped"]}
+    hname = obs["hooks"][k][0] if k < len(obs["hooks"]) else "?"
+    for path, ek in P.element_paths(prog):
+        got = obs["status"].get(path)
+        if ek in ("S", "row"):
+            kids = obs["steps"][path]
+            acc = refrun.accept(kids) | refrun.accept(kids, explicit_skip=True)
+        else:
+            kids = refrun.children_of(prog, path, obs["status"])
+            acc = refrun.accept(kids)
+        if got not in acc:
+            v.append(({"subcheck": "part-skip", "clause": "rollup", "kind": ek, "got": str(got),
+                       "want": "|".join(sorted(acc)), "children": "+".join(sorted(set(kids))), "skipped_by": kind},
+                      "%s.skip() called from %s #%d: element %r (%s) has status %s, children %s, acceptable %s"
+                      % ("feature" if kind == "skipf" else "rule", hname, k, path, ek, got, kids, sorted(acc))))
+    interesting = tuple(sorted(set(obs["status"].values())))
+    return {"v": v, "nt": digest(case), "out": ("part-skip", kind, interesting),
+            "dg": (sorted(obs["status"].items()), sorted(obs["steps"].items()))}
+
+
+def partskip_cases(tier):
+    quick = tier == "quick"
+    shapes = [s_ for s_ in P.shapes(tier) if 2 <= P.size(s_) <= (3 if quick else 5) and len(s_[3]) <= 2]
+    for si, shp in enumerate(shapes):
+        for nd, pr in P.deviations((shp,), 1, outcomes=("fail", "error", "undefined") if quick else
+                                   ("fail", "error", "undefined", "pending", "skip")):
+            prog = (pr[0], P.SECOND_FEATURE)
+            hooks_ = refrun.predict(prog, {}, hooks=True).hooks
+            for k, (name, ref) in enumerate(hooks_):
+                if name in ("before_all", "after_all") or ref[:1] == (1,) or (isinstance(ref[0], tuple) and ref[0][:1] == (1,)):
+                    continue        # hooks of the second feature: nothing before them in their feature
+                if quick and "tag" in name:
+                    continue
+                for kind in ("skipf", "skipr"):
+                    yield (prog, k, kind)
+
+
 # ---------------------------------------------------------------- histories: auto-retry and re-runs
 def retry_case(case):
     """case = (mode, kind, attempts: tuple of outcome tuples)  mode in autoretry|rerun ; kind in S|O"""
@@ -424,5 +473,7 @@ def run(ctx):
     ctx.sweep(rerun_case, (c for c in itertools.chain(runcases.step_cases(ctx.tier), runcases.fault_cases(ctx.tier))
                            if P.size(c[0][0]) <= (2 if ctx.quick else 4) and c[1] in ("default", "stop", "tags_t", "wip")),
               chunk=48, name="whole model run twice (reset in between)")
+    ctx.sweep(partskip_case, partskip_cases(ctx.tier), chunk=48,
+              name="feature.skip() / rule.skip() called from every hook invocation of a partly executed feature")
     ctx.sweep(retry_case, retry_cases(ctx.tier), chunk=16, name="auto-retry / re-run histories")
     ctx.guard(len(ctx.outcomes) > 30, "at least 30 distinct outcome classes")
